@@ -9,8 +9,11 @@ Planning code (exact ties via harness/rangeplan.py): `fits_trivially`, the answe
 is involved, and the range `delete_range` hands to `Transform.delete` (lean/PM/RangeOps.lean; observed through a Transform
 subclass in this process); the Fitter itself — the step `replace_step` emits, exactly, on the bundled-family schemas, and the
 step `delete_range` records (lean/PM/Fitter.lean), with the `fill_before` / `find_wrapping` choices it depends on
-(lean/PM/FillOrder.lean).  Props/C11.lean proves `respects` for these models (`fitsTrivially_respects`, `deleteRange_respects`,
-`fit_range`, `fitter_respects`) instead of only monitoring it.
+(lean/PM/FillOrder.lean); `replace_range` / `replace_range_with` as wholes (lean/PM/ReplaceRange.lean): the whole sequence of
+`(from, to, slice)` they hand to `Transform.replace` (observed through a Transform subclass), `close_fragment`, and the pair
+`replace_range_with` passes on — also on two aimed schemas with `definingAsContext` / `definingForContent`.
+Props/C11.lean proves `respects` for these models (`fitsTrivially_respects`, `deleteRange_respects`,
+`fit_range`, `fitter_respects`, `replaceRange_extends_structurally`, `replaceRange_respects`) instead of only monitoring it.
 Search: on the real code: no exception on the bundled-family schemas (totality — decided by search
 only), `check()` + the independent validator, and content preservation computed from to_json().
 """
@@ -74,6 +77,26 @@ def run(ctx):
         del reqs[:], metas[:]
 
     fam = schemas.family()
+    rng_rr = random.Random(ctx.seed * 7919 + 11)     # the replace_range ties draw from their own stream
+    # replace_range on the aimed schemas with `definingAsContext` / `definingForContent` (harness/schemas.py), and
+    # replace_range_with at block boundaries (where insert_point moves the target)
+    for info in [schemas.by_name("ctx-flags-a"), schemas.by_name("ctx-flags-b")] + [fam[k] for k in (1, 5, 6)]:
+        ctx.driver.add_schema(info)
+        docs = [gen.gen_doc(rng_rr, info.schema, budget=rng_rr.choice([8, 16, 30])) for _ in range(ctx.budget(4, 10))]
+        for d in docs:
+            for _ in range(ctx.budget(10, 40)):
+                f, t = gen.random_range(rng_rr, d)
+                if rng_rr.random() < 0.5:
+                    sl = gen.random_slice(rng_rr, docs)
+                    rangeplan.tie_replace_range(ctx, info, d, f, t, sl, reqs, metas)
+                    if sl.open_start:
+                        rangeplan.tie_close_fragment(ctx, info, sl, reqs, metas)
+                else:
+                    n_ = ops.random_node(rng_rr, info, docs)
+                    if n_ is not None:
+                        if rng_rr.random() < 0.6:
+                            t = f
+                        rangeplan.tie_replace_range_with(ctx, info, d, f, t, n_, reqs, metas)
     for si in range(ctx.budget(18, 80)):
         if len(reqs) >= 15000:
             flush()     # keep memory bounded in long runs
@@ -98,6 +121,13 @@ def run(ctx):
                 # trivial path for the requested (from, to, slice), and the range delete_range hands to Transform.delete
                 rangeplan.tie_trivial(ctx, info, d, f, t, req, reqs, metas)
                 rangeplan.tie_delete_range(ctx, info, d, f, t, reqs, metas)
+                # replace_range / replace_range_with as wholes (lean/PM/ReplaceRange.lean): every `(from, to, slice)` they
+                # hand to `Transform.replace`, in order, exactly — for the request of whichever operation was planned
+                rangeplan.tie_replace_range(ctx, info, d, f, t, req, reqs, metas)
+                if name in ("replace_with", "replace_range_with", "insert"):
+                    rangeplan.tie_replace_range_with(ctx, info, d, f, t, args[-1], reqs, metas)
+                if req.open_start and rng_rr.random() < 0.3:
+                    rangeplan.tie_close_fragment(ctx, info, req, reqs, metas)
                 if bundled:
                     # the Fitter itself (lean/PM/Fitter.lean): the step replace_step emits for the request, exactly
                     rangeplan.tie_replace_step(ctx, info, d, f, t, req, reqs, metas)
